@@ -40,6 +40,7 @@ impl Panicked {
 thread_local! {
     static LAST: RefCell<Option<Panicked>> = const { RefCell::new(None) };
     static SLOT: RefCell<Option<usize>> = const { RefCell::new(None) };
+    static DEPTH: std::cell::Cell<u32> = const { std::cell::Cell::new(0) };
 }
 
 pub fn install() {
@@ -55,6 +56,10 @@ pub fn install() {
             .location()
             .map(|l| format!("{}:{}", l.file(), l.line()))
             .unwrap_or_else(|| "<unknown>".into());
+        if DEPTH.with(|d| d.get()) == 0 {
+            // a panic outside any guard is a harness bug: make it visible
+            eprintln!("HARNESS PANIC: {} at {}", message, location);
+        }
         LAST.with(|l| *l.borrow_mut() = Some(Panicked { message, location }));
     }));
 }
@@ -62,7 +67,10 @@ pub fn install() {
 /// Run `f`; Err(Panicked) if it panicked (including overflow and bounds checks).
 pub fn guard<T>(f: impl FnOnce() -> T) -> Result<T, Panicked> {
     LAST.with(|l| *l.borrow_mut() = None);
-    match catch_unwind(AssertUnwindSafe(f)) {
+    DEPTH.with(|d| d.set(d.get() + 1));
+    let r = catch_unwind(AssertUnwindSafe(f));
+    DEPTH.with(|d| d.set(d.get().saturating_sub(1)));
+    match r {
         Ok(v) => Ok(v),
         Err(_) => Err(LAST.with(|l| l.borrow_mut().take()).unwrap_or(Panicked {
             message: "<panic without hook record>".into(),
